@@ -282,6 +282,78 @@ def Eff.mentions (a : Atom) : Eff → Bool
   | .seq x y | .branch x y => x.mentions a || y.mentions a
   | .loop x => x.mentions a
 
+/-! ### a witness trace (non-vacuity of the statements about `Trace`) -/
+
+def Eff.flat : Eff → Bool
+  | .skip | .atom _ => true
+  | .callVs _ => false
+  | .seq x y | .branch x y => x.flat && y.flat
+  | .loop x => x.flat
+
+/-- one trace of a skeleton without strategy calls: the longer branch, every loop once -/
+def pick0 : Eff → List Atom
+  | .skip => []
+  | .atom a => [a]
+  | .callVs _ => []
+  | .seq a b => pick0 a ++ pick0 b
+  | .branch a b => if (pick0 b).length ≤ (pick0 a).length then pick0 a else pick0 b
+  | .loop b => pick0 b
+
+/-- … and of a driver skeleton, the strategy steps expanded -/
+def pick (vs : VsM → Eff) : Eff → List Atom
+  | .skip => []
+  | .atom a => [a]
+  | .callVs m => pick0 (vs m)
+  | .seq a b => pick vs a ++ pick vs b
+  | .branch a b => if (pick vs b).length ≤ (pick vs a).length then pick vs a else pick vs b
+  | .loop b => pick vs b
+
+theorem pick0_trace (vs : VsM → Eff) (e : Eff) (h : e.flat = true) : Trace vs e (pick0 e) := by
+  induction e with
+  | skip => exact .skip
+  | atom a => exact .atom a
+  | callVs m => simp [Eff.flat] at h
+  | seq a b iha ihb =>
+    simp only [Eff.flat, Bool.and_eq_true] at h
+    exact .seq (iha h.1) (ihb h.2)
+  | branch a b iha ihb =>
+    simp only [Eff.flat, Bool.and_eq_true] at h
+    simp only [pick0]
+    split
+    · exact .left (iha h.1)
+    · exact .right (ihb h.2)
+  | loop b ih =>
+    simp only [Eff.flat] at h
+    have := Trace.loopCons (ih h) (Trace.loopNil (vs := vs) (b := b))
+    simpa [pick0] using this
+
+theorem pick_trace (vs : VsM → Eff) (hflat : ∀ m, (vs m).flat = true) (e : Eff) : Trace vs e (pick vs e) := by
+  induction e with
+  | skip => exact .skip
+  | atom a => exact .atom a
+  | callVs m => exact .call (pick0_trace vs (vs m) (hflat m))
+  | seq a b iha ihb => exact .seq iha ihb
+  | branch a b iha ihb =>
+    simp only [pick]
+    split
+    · exact .left iha
+    · exact .right ihb
+  | loop b ih =>
+    have := Trace.loopCons ih (Trace.loopNil (vs := vs) (b := b))
+    simpa [pick] using this
+
+theorem realizes_exists {Ind Data : Type} (i : Ind) (d : Data) (t : List Atom) :
+    ∃ es : List (Ev Ind Data), Realizes t es := by
+  induction t with
+  | nil => exact ⟨[], .nil⟩
+  | cons a t ih =>
+    obtain ⟨es, h⟩ := ih
+    cases a
+    · exact ⟨_, .change d h⟩
+    · exact ⟨_, .clear h⟩
+    · exact ⟨_, .eval i h⟩
+    · exact ⟨_, .load h⟩
+
 /-- the whole check of one strategy under a driver skeleton -/
 def safeUnder (run : Eff) (st : String × Eff × Eff × Eff) : Bool :=
   post (sumOf st) run false == some false
